@@ -69,7 +69,16 @@ class Ctx:
     def sat(self, *extra, timeout=None):
         s = z3.Solver()
         s.set("timeout", timeout or Z3_TIMEOUT_MS)
-        s.add(*self.pc)
+        # the path condition is kept as one nested conjunction (adding n assertions one by one
+        # through the Python API dominated the run time)
+        n = getattr(self, "_conj_n", 0)
+        if n > len(self.pc):
+            n, self._conj = 0, None
+        for c in self.pc[n:]:
+            self._conj = c if getattr(self, "_conj", None) is None else z3.And(self._conj, c)
+        self._conj_n = len(self.pc)
+        if getattr(self, "_conj", None) is not None:
+            s.add(self._conj)
         s.add(*extra)
         t0 = time.time()
         r = s.check()
@@ -88,10 +97,10 @@ class Ctx:
         if i < len(self.prefix):
             d = self.prefix[i]
         else:
-            rt, _, _ = self.sat(cond)
-            rf, _, _ = self.sat(z3.Not(cond))
-            if rt == z3.unsat and rf == z3.unsat:
-                raise PathEnd("infeasible")
+            rt, _, _ = self.sat(cond, timeout=5000)
+            # if cond is impossible the path continues with not(cond); should the path itself be
+            # infeasible, everything proved on it is vacuous (harmless), so no second query
+            rf = z3.sat if rt == z3.unsat else self.sat(z3.Not(cond), timeout=5000)[0]
             if rt == z3.unsat:
                 d = False
             elif rf == z3.unsat:
@@ -306,6 +315,22 @@ class SymBool:
     __ror__ = __or__
     __rxor__ = __xor__
 
+    # bool is an int in Python: True + 1 == 2
+    def _int(self):
+        return SymInt(z3.If(self.t, z3.IntVal(1), z3.IntVal(0)))
+
+    def __add__(self, o):
+        return self._int() + o
+
+    def __radd__(self, o):
+        return o + self._int()
+
+    def __mul__(self, o):
+        return self._int() * o
+
+    def __rmul__(self, o):
+        return o * self._int()
+
     def __eq__(self, o):
         return SymBool(self.t == tobool(o))
 
@@ -351,6 +376,7 @@ def _frac(o):
 
 class _Arith:
     __slots__ = ("t",)
+    dtype = None     # `x.dtype` is only ever passed on to re-bound array constructors
 
     def __init__(self, t):
         self.t = t
@@ -419,6 +445,10 @@ class _Arith:
     def __eq__(self, o): return self._cmp(o, lambda a, b: a == b)
     def __ne__(self, o): return self._cmp(o, lambda a, b: a != b)
     __hash__ = None
+
+    def __bool__(self):
+        # truthiness of a number: x != 0 (forks)
+        return bool(self != 0)
 
     def __pow__(self, o):
         if isinstance(o, int) and 0 <= o <= 8:
@@ -813,6 +843,26 @@ class _StripImports(ast.NodeTransformer):
         return node
 
 
+class _StripAnnotations(ast.NodeTransformer):
+    """type annotations are evaluated at definition time against the (re-bound) namespace;
+    they have no run-time meaning for the code under contract and are dropped"""
+
+    def _args(self, a):
+        for x in a.posonlyargs + a.args + a.kwonlyargs + [y for y in (a.vararg, a.kwarg) if y]:
+            x.annotation = None
+
+    def visit_FunctionDef(self, node):
+        self._args(node.args)
+        node.returns = None
+        self.generic_visit(node)
+        return node
+
+    def visit_AnnAssign(self, node):
+        if node.value is None:
+            return ast.Pass()
+        return ast.copy_location(ast.Assign(targets=[node.target], value=node.value), node)
+
+
 class _GhostReturn(ast.NodeTransformer):
     """`return X`  ->  `return __vc.at_return(X, locals())` (outermost function only)"""
 
@@ -858,6 +908,8 @@ def extract(func, loops=None, rebind=None, vc=None, src_edit=None, strip_local_i
     if fdef.decorator_list:
         transforms.append("decorators dropped: " + ", ".join(ast.unparse(d) for d in fdef.decorator_list))
         fdef.decorator_list = []
+    _StripAnnotations().visit(fdef)
+    transforms.append("type annotations dropped")
     if loops:
         cutter = LoopCutter(loops)
         cutter.visit(fdef)
